@@ -15,7 +15,7 @@ THEOREMS = [P + n for n in (
     "heun_linear_exact", "mft_field_is_heun", "stage_times_accurate", "mft_linear_exact",
     "methods_agree", "methods_agree_final_only", "eom_calls_agree",
     "no_field_dependence_mft", "no_field_dependence_cdwf", "plain_sample_times",
-    "plain_dissipator_times", "diss_args_current_time", "defaults_agree",
+    "plain_dissipator_times", "diss_args_current_time", "defaults_agree", "recorded_labels",
     "ham_args_linearised", "int_linearised_from_step_start", "step_indices", "statement_order")] + [
     "OQuPyVerif.MeanField.cdwfIter_spec", "OQuPyVerif.MeanField.mftIter_spec",
     "OQuPyVerif.MeanField.cdwf_loop_rk1_time_grid", "OQuPyVerif.MeanField.cdwf_final_rk1_time_grid",
@@ -141,6 +141,15 @@ def gen_case(rng, tier, **force):
     nondiag = force.get("nondiag", v < 0.35)
     case["cu"] = [_unitary(rng, d) for d in dims] if nondiag else None
     case["layout"] = force.get("layout", rng.choice(["C", "C", "F", "T", "slice"]))
+    # fourth generation: MeanFieldTempo computed in several compute() calls (cumulative step targets)
+    w = rng.random()
+    if "chunks" in force:
+        case["chunks"] = force["chunks"]
+    elif n >= 2 and w < 0.35:
+        cuts = sorted(rng.sample(range(1, n), min(n - 1, rng.randrange(1, 4))))
+        case["chunks"] = cuts + [n]
+    else:
+        case["chunks"] = None
     return case
 
 
@@ -259,14 +268,20 @@ class Problem:
         layout = self.case.get("layout", "C") if layout is None else layout
         return [laid_out(r, layout) for r in self.case["rho0"]]
 
-    def run_mft(self, unique=None, layout=None):
+    def run_mft(self, unique=None, layout=None, chunks="case"):
         import oqupy
         case = self.case
         unique = bool(case.get("unique", False)) if unique is None else unique
         m = oqupy.MeanFieldTempo(self.mfs, self.baths, self.params, self.initial_states(layout),
                                  case["a0"], start_time=case["start"], unique=unique)
         self.reset()
-        dyn = m.compute(self.end if case["n"] > 0 else case["start"], progress_type="silent")
+        chunks = case.get("chunks") if chunks == "case" else chunks
+        if chunks and case["n"] > 0:
+            # a continued run: compute() up to each cumulative step target in turn
+            for k in chunks:
+                dyn = m.compute(case["start"] + (k + 0.5) * case["dt"], progress_type="silent")
+        else:
+            dyn = m.compute(self.end if case["n"] > 0 else case["start"], progress_type="silent")
         return _result(dyn, self.eom_log, self.ham_log, self.diss_log)
 
     def process_tensors(self):
@@ -544,7 +559,7 @@ def corpus_cases():
 
 def correspondence(res, tier, rng):
     cases = [("corpus:" + f, c) for f, c in corpus_cases()]
-    ngen = 20 if tier == "quick" else 90
+    ngen = 22 if tier == "quick" else 90
     # fixed coverage first, then random
     forced = [dict(dims=[2], n=1, kind="linear-t", start=1.0, dt=0.1, subdiv=None, record_all=True),
               dict(dims=[2, 3, 2], n=3, kind="full", start=-0.7, subdiv=None, record_all=False),
@@ -571,7 +586,12 @@ def correspondence(res, tier, rng):
                    layout="F", record_all=True),
               dict(dims=[3], n=2, kind="full", subdiv=None, nl=0, unique=True, nondiag=False,
                    layout="T", record_all=False),
-              dict(dims=[2], n=2, kind="full", subdiv=None, nl=0, layout="slice", record_all=True)]
+              dict(dims=[2], n=2, kind="full", subdiv=None, nl=0, layout="slice", record_all=True),
+              # MeanFieldTempo continued over several compute() calls
+              dict(dims=[2, 3], n=5, kind="full", start=0.7, dt=0.1, subdiv=None, nl=0, unique=False,
+                   nondiag=False, layout="C", chunks=[2, 3, 5], record_all=True),
+              dict(dims=[2], n=4, kind="time-only", start=-0.7, subdiv=64, nl=0, chunks=[1, 4],
+                   record_all=False)]
     for i, f in enumerate(forced):
         cases.append(("forced%d" % i, gen_case(rng, tier, **f)))
     for i in range(ngen - len(forced)):
@@ -593,6 +613,7 @@ def correspondence(res, tier, rng):
         res.count("unique=%s coupling=%s" % (bool(case.get("unique")),
                                              "non-diagonal" if case.get("cu") else "diagonal"))
         res.count("initial-state-layout=" + case.get("layout", "C"))
+        res.count("mft compute() calls=%d" % (len(case["chunks"]) if case.get("chunks") else 1))
         if case.get("q") or case["hw"] == 9.0:
             res.count("hamiltonian non-linear in field / fast in t")
         res.count("steps=%d" % case["n"])
@@ -740,8 +761,31 @@ def oracle_case(res, case, tag=""):
     layout = case.get("layout", "C")
     feat = (" unique" if case.get("unique") else "") + \
         (" non-diagonal-coupling" if case.get("cu") else "") + \
-        (" initial-state-layout=" + layout if layout != "C" else "")
-    what += feat
+        (" initial-state-layout=" + layout if layout != "C" else "") + \
+        (" continued-run" if case.get("chunks") else "")
+    what += feat + (" (MeanFieldTempo.compute called up to steps %s in turn)" % case["chunks"]
+                    if case.get("chunks") else "")
+    if case.get("chunks") and case["n"] >= 1:
+        # a computation split over several compute() calls returns what a single call returns
+        ref, _ = _safe(lambda: p.run_mft(chunks=None))
+        if ref is not None:
+            if ref["times"] != mft["times"] or len(ref["fields"]) != len(mft["fields"]):
+                res.fail("continued-run:MeanFieldTempo",
+                         {"case": cj, "how": "MeanFieldTempo computed in %d compute() calls returns the "
+                          "times %r, a single call %r (%s)" % (len(case["chunks"]), mft["times"],
+                                                               ref["times"], what),
+                          "times_continued": mft["times"], "times_one_shot": ref["times"]})
+                found = True
+            else:
+                dd = max(float(np.max(np.abs(np.array(mft["fields"]) - np.array(ref["fields"])))),
+                         max(float(np.max(np.abs(mft["states"][i] - ref["states"][i])))
+                             for i in range(len(case["dims"]))))
+                if dd > 1e-12:
+                    res.fail("continued-run:MeanFieldTempo",
+                             {"case": cj, "diff": dd, "how": "MeanFieldTempo computed in %d compute() "
+                              "calls differs by %.3g from the single call (%s)"
+                              % (len(case["chunks"]), dd, what)})
+                    found = True
     if case.get("unique") and case["n"] >= 1:
         # degeneracy checking must not change the result (MeanFieldTempo unique=True vs False)
         ref, _ = _safe(lambda: p.run_mft(unique=False))
@@ -852,6 +896,12 @@ def search(res, rng=None):
     for lay in ("F", "T", "slice"):
         oracle_case(res, gen_case(rng, "quick", dims=[2], n=2, kind="full", dt=0.1, subdiv=None, nl=0,
                                   unique=False, nondiag=False, layout=lay, record_all=True))
+    # (c4) continued runs: MeanFieldTempo in 2-4 compute() calls, start_time != 0, time dependent
+    #      field equation, two systems of different dimension
+    for chunks, n in (([2, 6], 6), ([1, 3, 6], 6), ([1, 2, 4, 5], 5)):
+        oracle_case(res, gen_case(rng, "quick", dims=[2, 3], n=n, kind="full", start=0.7, dt=0.1,
+                                  subdiv=None, nl=0, unique=False, nondiag=False, layout="C",
+                                  chunks=chunks, record_all=True))
     # (d) fresh inputs: linear-in-time and fully time dependent equations, start_time != 0,
     #     1-3 systems, both record_all settings, field-free Hamiltonians
     for i in range(10):
@@ -877,6 +927,7 @@ def run(tier, seed, replay):
         "methods' DEFAULT settings (nothing passed), Hamiltonians slow/fast (cos 9t) in t and linear / "
         "|a|^2 in the field, MeanFieldTempo unique in {False, True}, coupling operators diagonal / "
         "rotated by a complex unitary, initial states C / Fortran / transposed-view / strided, "
+        "MeanFieldTempo in one or 2-4 compute() calls, "
         "0-2 time dependent Lindblad rates and operators per system (times handed "
         "to them logged and compared with dissArgs bit-exactly; in integrated runs against the "
         "Hamiltonian's time of the same Liouvillian), baths with dkmax 1-3.  Real "
